@@ -22,34 +22,44 @@ T_K8 = "Kani/CBMC bounded model checking of a scripted 8-bit-word build, shaped 
 
 claim("C02", K8 + "Kernels div2by1 (its whole domain), div3by2, Uint<1..4>::div_rem/div_rem_vartime/rem and the by-limb forms against "
       "n = q*d + r, r < d, with constructive shapes n = q*d + r that contain exact multiples, +-1 neighbours and Knuth add-back "
-      "inputs. The 64-bit reciprocal() table code is replaced by its definition in that build and is outside the claim.",
+      "inputs; Uint::rem_wide_vartime (double-width dividend) constructively; BoxedUint division at 1-4 limbs with equal and different "
+      "precisions (div_rem_vartime / rem_vartime, the constant-time div_rem, by-limb, checked, operator, assigning and trait forms). "
+      "The 64-bit reciprocal() table code is replaced by its definition in that build and is outside the claim.",
       T_K8, "DESIGN.md section 4 C02")
 claim("C03", K8 + "Schoolbook multiply/square at 1x1..4x4 limbs, all public forms, and the Karatsuba template instantiated at (4,2,1) "
       "(same macro body as the production 128..8 line) against the u64 product; word primitives (mac, mul_wide) at all 8-bit values "
-      "and shaped 64-bit values. Production dispatch widths 16..128 limbs and the boxed Karatsuba recursion are outside.",
+      "and shaped 64-bit values; BoxedUint mul / square / checked / wrapping / operator forms at unequal lengths; the recursive boxed Karatsuba "
+      "bodies (incl. trailing-limb handling) in a copy whose two thresholds are lowered to (2, 1) so that they run at 2..8 limbs - this found "
+      "and led to the repair of a dropped carry in BoxedUint::mul (33 x 35 limbs). Production dispatch widths 16..128 limbs of the fixed "
+      "template and behaviour at the real thresholds are outside.",
       T_K8, "DESIGN.md section 4 C03")
 claim("C04", K64 + "Limb, Uint<1..4> (thorough 6, 8), BoxedUint 1..4 limbs with equal and different precisions, primitive/Uint right-hand "
-      "sides, Wrapping/Checked wrappers, every carry/borrow-in word; documented panics checked in both directions; the release-profile "
+      "sides, Wrapping/Checked wrappers (every operator form for every some/none combination of the operands), every carry/borrow-in word; "
+      "documented panics checked in both directions; the release-profile "
       "behaviour of the boxed assigning forms is checked in a debug-assertions-off build.", T_K64, "DESIGN.md section 4 C04")
 claim("C05", K64 + "Uint<1..4> (thorough 5, 6, 8), Int<1..3>, double-width shifts, internal limb-shift helpers, bit queries and set_bit for "
-      "every u32 shift / index through a symbolic-bit-position oracle (one assertion covers all positions); boxed forms via C15.",
+      "every u32 shift / index through a symbolic-bit-position oracle (one assertion covers all positions); BoxedUint shifts (all forms), "
+      "bit queries, set_bit and bitwise operators at 1-3 limbs incl. narrower / wider right-hand sides.",
       T_K64, "DESIGN.md section 4 C05")
 claim("C06", K64 + "ConstChoice predicates on all word pairs; Uint/Int/Limb/BoxedUint (equal and different precision) comparisons against a "
       "lexicographic / two's-complement reference and native u128/i128; Hash coherence through a recording Hasher; select/assign/swap "
-      "return exactly one operand.", T_K64, "DESIGN.md section 4 C06")
+      "return exactly one operand, incl. MontyParams / MontyForm field for field.", T_K64, "DESIGN.md section 4 C06")
 claim("C07", K64 + "add_mod/sub_mod/neg_mod/double_mod, the special-modulus forms for every word c, halving, boxed forms at 1..3 limbs for every "
-      "modulus and all operands below it. " + K8 + "mul_mod, mul_mod_vartime, mul_mod_special at 1-2 limbs.",
+      "modulus and all operands below it; BoxedMontyForm add/sub/neg/double/div_by_2. " + K8 + "mul_mod, mul_mod_vartime, mul_mod_special at 1-3 limbs, "
+      "BoxedUint::mul_mod on concrete moduli with symbolic operands.",
       T_K64 + "; " + T_K8, "DESIGN.md section 4 C07")
 claim("C08", K8 + "History quantification is replaced by one inductive step from an arbitrary valid state (any x < m is a Montgomery form): "
       "montgomery_reduction on its whole 1-limb domain against textbook REDC, every operation of MontyForm<1> for every odd modulus and "
       "all stored operands, MontyForm<2> and the boxed multiplier / almost_montgomery_mul under shapes, parameter constructors against "
       "their definitions for every odd 1-limb modulus. Boxed parameter derivation with a symbolic modulus does not finish and is "
-      "checked on concrete moduli only (thorough).", T_K8, "DESIGN.md section 4 C08")
+      "checked on concrete moduli only (thorough); BoxedMontyForm mul / square / linear wrappers through the public API.", T_K8, "DESIGN.md section 4 C08")
 claim("C09", K8 + "Compositional on C08: pow_bounded_exp for concrete bit bounds k in {0,1,3,4,5,8} (thorough: 2,6,7,9,13 and 2-limb exponents) "
       "and multi-exponentiation against a bit-serial ladder built from the crate's own checked mul/square; lincomb_vartime for 1-3 terms "
-      "(below, at and above one accumulation window) against the fold of single REDC products.", T_K8, "DESIGN.md section 4 C09")
+      "(below, at and above one accumulation window) against the fold of single REDC products; the boxed pow kernel for moduli 81, 125, 255 and "
+      "shaped moduli, and its final reduction as a cut point (arbitrary accumulator below 3m, real 64-bit words).", T_K8 + "; cut-point slice of the current source", "DESIGN.md section 4 C09 and 10.1")
 claim("C10", "PARTIAL. " + K8 + "Inversion modulo 2^k (three variants) for every a and every k at 1-2 limbs; the linear kernels of the safegcd "
-      "core (UnsatInt conversion/add/neg/shr, iteration count formula) at 64-bit words. The Bernstein-Yang divsteps iteration itself and "
+      "core (UnsatInt conversion/add/neg/shr/eq, iteration count formula, the final normalisation norm() of the fixed and boxed inverters as a "
+      "cut point, boxed conversions) at 64-bit words. The Bernstein-Yang divsteps iteration itself and "
       "every end-to-end inversion/gcd through it are NOT decided (no bound within reach: >= 26 data-dependent 62-step jumps of 64x64 "
       "products); changes confined to that core are outside what this check can see.", T_K8 + "; " + T_K64, "DESIGN.md section 4 C10")
 claim("C11", "Every functional harness of the other properties runs with Kani's panic, overflow, bounds, debug_assert, unwrap/expect and "
@@ -59,11 +69,15 @@ claim("C11", "Every functional harness of the other properties runs with Kani's 
       "(debug assertions off, wrapping arithmetic).", T_K64 + "; documented-panic harness pairs; release-profile build", "DESIGN.md section 4 C11")
 claim("C12", K64 + "Every producer of NonZero / Odd values found in the source (constructors, conversions, Default, constants, selection, "
       "byte/hex decoders in both byte orders, random generation over every bounded RNG stream) is run on arbitrary arguments and the "
-      "invariant is asserted on whatever comes out ('valid or fails').", T_K64 + ", RNG replaced by a bounded symbolic tape", "DESIGN.md section 4 C12")
+      "invariant is asserted on whatever comes out ('valid or fails'); serde deserialisation through an in-harness data format; hex decoding of "
+      "every 4-character string in the 8-bit-word build.", T_K64 + ", RNG replaced by a bounded symbolic tape", "DESIGN.md section 4 C12")
 claim("C13", K64 + "add/sub/neg/abs/sign reconstruction/resize/from-primitive at Int<1..4> against native i128 and a sign-extended ripple reference. "
-      + K8 + "Int x Int, Int x Uint, widening, checked and squaring forms at 1-2 limbs against i64.", T_K64 + "; " + T_K8, "DESIGN.md section 4 C13")
+      + K8 + "Int x Int, Int x Uint, widening, checked and squaring forms at 1-2 limbs (equal and mixed widths, result narrower or wider than the other "
+      "operand) against i64; Checked<Int> operator forms.", T_K64 + "; " + T_K8, "DESIGN.md section 4 C13")
 claim("C14", K8 + "Truncating, flooring and by-unsigned division flavours of Int<1> (all values) and Int<2> (shaped, incl. MIN, MAX, -1) against "
-      "multiplication-based predicates n = q*d + r with the sign convention of each flavour; none exactly for d = 0 or MIN / -1.",
+      "multiplication-based predicates n = q*d + r with the sign convention of each flavour; none exactly for d = 0 or MIN / -1; Int<3> with "
+      "constructive shapes (rare kernel branches), mixed-width vartime forms; the shared limb kernels (div2by1 on its whole domain, div3by2) "
+      "are part of this check.",
       T_K8, "DESIGN.md section 4 C14")
 claim("C15", "Differential harnesses: the same symbolic input through two routes must give bit-identical results (ct vs vartime, boxed vs fixed, "
       "trait vs inherent vs operator, precomputed vs one-shot reciprocal). Most pairs are asserted inside the exactness harnesses of the "
@@ -71,27 +85,31 @@ claim("C15", "Differential harnesses: the same symbolic input through two routes
       "Routes through the safegcd core and const-context evaluation are outside.", T_K64 + "; " + T_K8 + "; differential assertions", "DESIGN.md section 4 C15")
 claim("C16", K64 + "Byte encodings positional through a symbolic byte index and mutually inverse for U64/U128/U192/U256, hex decoders on all "
       "ASCII strings (malformed input must panic / be none), primitive/word/concat/split/resize conversions, boxed slice decoders for "
-      "symbolic lengths at concrete precisions incl. non-multiples of 8 and 64.", T_K64, "DESIGN.md section 4 C16")
+      "symbolic lengths at concrete precisions incl. non-multiples of 8 and 64; serde round trips (binary and text) through an in-harness data "
+      "format; Display / LowerHex / UpperHex of Limb, Uint<1>, Int<1> and the wrappers through core::fmt.", T_K64, "DESIGN.md section 4 C16")
 claim("C17", "PARTIAL. " + K8 + "Parser: every ASCII string of concrete length 1-3 for radices 10, 16, 36 (exact unwind bounds) against a reference "
       "grammar, incl. overflow reporting at the 2^8 boundary; encoder kernels (division by radix power, shifting) for all 1-2-limb values. "
-      "The String wrapper (to_string_radix_vartime), the other radices in the quick tier, the 64-bit digit batching and the > 32-limb "
-      "recursion are outside.", T_K8, "DESIGN.md section 4 C17")
-claim("C18", K64 + "DER: TryFrom<UintRef/AnyRef> on every byte string up to capacity+3, EncodeValue canonical form and round trip for U64/U128. "
+      "BoxedUint parsing with an explicit precision (radix 16, 36). The large-divisor recursion of the encoder runs in the thorough tier in a copy "
+      "with RADIX_ENCODING_LIMBS_LARGE lowered to 2 (radix 36, 3 limbs); its division kernel is part of this check. The String wrapper "
+      "(to_string_radix_vartime), the other radices in the quick tier and the 64-bit digit batching are outside.", T_K8, "DESIGN.md section 4 C17")
+claim("C18", K64 + "DER: TryFrom<UintRef/AnyRef> on every byte string up to capacity+3 (AnyRef: accepted exactly when canonical), EncodeValue canonical form and round trip for U64/U128. "
       "RLP: the decoder on every single-item input of length 1,2,3,9,10 for U64 accepts only canonical strings. The RLP encoder "
       "(RlpStream over BytesMut) does not finish under CBMC and is NOT claimed.", T_K64, "DESIGN.md section 4 C18")
 claim("C19", K64 + "The RNG is a bounded symbolic tape: random_mod / random_bits return exactly the first admissible candidate of a reference "
       "rejection sampler (range, mask exactness, words consumed), every admissible value is reachable (surjectivity witness), documented "
-      "errors exactly, boxed == fixed on the same stream. Uniformity follows from these by a counting argument stated in DESIGN.md; no "
+      "errors exactly, boxed == fixed on the same stream, ConstMontyForm sampling makes the same accept/reject decisions. Uniformity follows from these by a counting argument stated in DESIGN.md; no "
       "statistics are run.", T_K64 + ", RNG replaced by a bounded symbolic tape", "DESIGN.md section 4 C19")
 claim("C20", K8 + "sqrt / sqrt_vartime / checked / wrapping forms: all 8-bit inputs, neighbourhoods of perfect squares and top-heavy shapes at 2-3 "
-      "limbs (thorough: all 16-bit inputs), boxed forms equal to fixed ones; oracle s*s <= x < (s+1)*(s+1).", T_K8, "DESIGN.md section 4 C20")
+      "limbs (thorough: all 16-bit inputs and extreme roots at 3-7 limbs), boxed forms equal to fixed ones; oracle s*s <= x < (s+1)*(s+1); the loop-bound "
+      "helper log2_bits and the division kernels are part of this check. The boxed iteration count at the one width where it is tight "
+      "(7 limbs of 8 bits) is not decided.", T_K8, "DESIGN.md section 4 C20")
 
 claim("C01", "Relational (2-safety) symbolic execution of the optimised LLVM IR (rustc -C opt-level=3, lto=fat) of one wrapper per public "
       "non-vartime operation and width: all secret operands symbolic, public parameters concrete and enumerated; at every branch "
       "condition, memory address, mem-intrinsic length and variable-divisor division operand z3 decides whether two admissible secrets "
       "can make the value differ. Leaks are replayed on the machine code (valgrind lackey instruction/address traces of the two witness "
       "secrets) before being reported. Bounds: the listed wrappers (Limb, U64..U256, I128, MontyForm<4>, BoxedUint 2 limbs), the listed "
-      "public values, IR level (machine-code lowering of select/arithmetic is outside), non-panicking runs.",
+      "public values, IR level (machine-code lowering of select/arithmetic is outside), non-panicking runs; boxed operands of equal and different precision.",
       "relational symbolic execution of rustc's optimised LLVM IR with z3 (own engine ctsym); translator validated per run against native execution; valgrind-lackey replay",
       "DESIGN.md section 2.3 and 4 C01",
       note="Trusted: rustc's LLVM-IR emission, the IR interpreter in /verif/ctsym (its concrete mode is compared with the native release binary on "
